@@ -521,8 +521,8 @@ def complaints(c, i):
         if not t[5]:
             why.append((True, "instance %d did not answer on the control socket within 15 s after its start" % (h + 1)))
     # every wait() resolves: the one called when the instance was told to shut down and the one called after its shutdown had completed
-    for h in range(min(k, len(r["waited"]))):
-        if not r["waited"][h]:
+    for h, t in enumerate(r["timings"]):
+        if len(t) < 6 or not t[3]:
             continue
         for kind, txt in ((1, "when the instance was told to shut down"), (2, "after its shutdown had completed")):
             ws = [w for w in r["waiters"] if w[0] == h and w[1] == kind]
